@@ -16,6 +16,7 @@ RULE = ("generated pairs (a, b=a+delta) with delta = tol*(1+-eps), eps in {1e-6,
         "must_fail iff dims inequivalent or some part differs by more than max(abs, rel*max|.|)*(1+1e-9); must_pass iff every "
         "part differs by <= abs (abs given) or <= rel*max|.| (no abs); the thin band between is not generated. "
         "non-trivial = delta != 0 and within a factor 1.2 of the tolerance; distinct = distinct (a, delta, tolerances, units, api).")
+RULE = RULE + ' Also: quantities of information and of a user-defined Dimension against dimensionless quantities, frequencies and bare numbers with equal numbers: must fail; equal amounts of information in other units: must pass.'
 ASSUMPTIONS = ["vf/units_ref.py table for unit values", "exact rational arithmetic for the reference predicate"]
 N = {"quick": 6400, "thorough": 112000}
 MIN_REACH = {"quick": {"zero_relative_tolerance": 100, "must_pass": 1500, "must_fail": 1500, "complex": 800, "dimension_mismatch": 300, "swap": 500,
